@@ -1166,6 +1166,54 @@ theorem runDelayed_lininv {s : State} (h : LinInv s) (ho : OriginInv s) (i : Nat
     | err k => exact h5
     | panic => exact h5
 
+/-- a delayed checkout retired without a poll: task removed, marker cancelled if owned, marker flag cleared -/
+theorem delayedTail_lininv {s2 : State} (hl2 : LinInv s2) (i : Nat) (r : ReqId) (c' : Checkout) (hr2 : s2.co r = some c') :
+    LinInv { (cancelIfOwner (removeTask s2 i) c') with
+             co := upd (cancelIfOwner (removeTask s2 i) c').co r (some { c' with marker := false }) } := by
+  have hs3 := removeTask_sub s2 i
+  obtain ⟨hs4, c4⟩ := cancelIfOwner_sub (removeTask s2 i) c'
+  have hr4 : (cancelIfOwner (removeTask s2 i) c').co r = some c' := by
+    have : (cancelIfOwner (removeTask s2 i) c').co = (removeTask s2 i).co := by
+      unfold cancelIfOwner; split
+      · unfold cancelConnection; split
+        · simp only []
+          have : ∀ (l : List ReqId) (x : State), (dropSenders x l).co = x.co := by
+            intro l; induction l with
+            | nil => intro x; rfl
+            | cons a l ih => intro x; simp only [dropSenders]; rw [ih]; split <;> rfl
+          rw [this]
+        · rfl
+      · rfl
+    rw [this]; exact hr2
+  have hs5 : Sub { (cancelIfOwner (removeTask s2 i) c') with
+             co := upd (cancelIfOwner (removeTask s2 i) c').co r (some { c' with marker := false }) }
+             (cancelIfOwner (removeTask s2 i) c') := Sub.commit (c' := { c' with marker := false }) hr4 (fun x hx => hx)
+  have hall := (hs5.trans hs4).trans hs3
+  exact hl2.sub_eq hall (by show (cancelIfOwner (removeTask s2 i) c').conns = s2.conns; rw [c4]; rfl)
+
+theorem abortTask_lininv {s : State} (h : LinInv s) (i : Nat) : LinInv (abortTask s i) := by
+  unfold abortTask
+  cases ht : taskOf s i with
+  | none => exact h
+  | some t =>
+    cases t with
+    | whenReady c tk hp =>
+      have h1 : LinInv (removeTask s i) := h.sub_eq (removeTask_sub s i) rfl
+      exact h1.sub_eq (Sub.of_eq rfl rfl rfl rfl rfl rfl) rfl
+    | delayed r =>
+      simp only []
+      cases hco : s.co r with
+      | none => exact h.sub_eq (removeTask_sub s i) rfl
+      | some c => exact delayedTail_lininv h i r c hco
+
+theorem abortAll_lininv : ∀ (fuel : Nat) (s : State), LinInv s → LinInv (abortAll fuel s)
+  | 0, _, h => h
+  | fuel + 1, s, h => by
+    simp only [abortAll]
+    split
+    · exact h.sub_eq (Sub.of_eq rfl rfl rfl rfl rfl rfl) rfl
+    · exact abortAll_lininv fuel _ (abortTask_lininv h _)
+
 theorem runTask_lininv {s : State} (h : LinInv s) (ho : OriginInv s) (i : Nat) : LinInv (runTask s i) := by
   unfold runTask
   cases ht : taskOf s i with
@@ -1342,6 +1390,7 @@ theorem step_lininv (s : State) (op : Op) (h : LinInv s) (ho : OriginInv s) : Li
   | run => exact runAll_lininv _ s h ho
   | tick ms => exact h.sub_eq (Sub.of_eq rfl rfl rfl rfl rfl rfl) rfl
   | mark => exact h
+  | shutdown => exact abortAll_lininv _ s h
 
 theorem run_lininv : ∀ (ops : List Op) (s : State), LinInv s → OriginInv s → LinInv (run s ops).1
   | [], _, h, _ => h
